@@ -114,8 +114,29 @@ def make_config(rng, fn=None, big=False, coefs=None, maxvars=6, one_shot_ok=Fals
     mapped = None
     constrained = False
     zero_entry = False
+    stale_degree = False
+    long_spelling = False
     if tn == "dict":
         m = dict(terms)
+        if m and rng.random() < 0.2:
+            # longer spellings of the same monomials: a boolean label repeated (x*x = x), a pair of equal spins inserted (z*z = 1)
+            tvs_ = sorted({x for k_ in m for x in k_}, key=repr)
+            m2 = {}
+            for k_, v_ in m.items():
+                k2 = list(k_)
+                if k2 and rng.random() < 0.6:
+                    if spin:
+                        y_ = rng.choice(tvs_)
+                        k2 += [y_, y_]
+                    else:
+                        k2.append(rng.choice(k2))
+                    rng.shuffle(k2)
+                    long_spelling = True
+                m2.setdefault(tuple(k2), v_)
+            if len(m2) == len(m):
+                m = m2
+            else:
+                long_spelling = False
         if labs and rng.random() < 0.25:
             # a plain dict filled from a weight table: some entries are explicit zeros (the model is the same function)
             for _ in range(rng.randint(1, 2)):
@@ -141,6 +162,18 @@ def make_config(rng, fn=None, big=False, coefs=None, maxvars=6, one_shot_ok=Fals
                 m = gen.model_of(getattr(L, tn), terms)          # (the penalty is not quadratic: not an input of the quadratic annealers)
                 constrained = False
         m.refresh()
+        if d2 and tn in ("PUBO", "PCBO", "PUSO", "PCSO", "PUBOMatrix", "PUSOMatrix") and rng.random() < 0.3:
+            # a quadratic model held by a higher-degree type, with a history: a cubic term came and went, so the object's
+            # `degree` bookkeeping (an upper bound until refresh) still says 3
+            tv_ = sorted({x for k_ in m for x in k_}, key=repr)
+            if len(tv_) >= 3:
+                k3 = tuple(gen.sort_labels(rng.sample(tv_, 3))) if not mat else tuple(sorted(rng.sample(tv_, 3)))
+                try:
+                    m[k3] += 5
+                    m[k3] -= 5
+                    stale_degree = True
+                except KeyError:
+                    pass
         if not mat and rng.random() < 0.35:
             mapped = user_mapping(rng, m)
     p = ref.from_raw(kind, dict(m))
@@ -205,7 +238,7 @@ def make_config(rng, fn=None, big=False, coefs=None, maxvars=6, one_shot_ok=Fals
         # labels 0..n-1: the state spelled as a sequence indexed by label (the repository's own tests spell it so)
         kw["initial_state"] = rng.choice([list, tuple])(kw["initial_state"][i] for i in range(len(full)))
         seq_state = True
-    return {"seq_state": seq_state, "zero_entry": zero_entry, "fn": fn, "type": tn, "model": m, "terms": dict(m), "kw": kw, "poly": p, "kind": kind,
+    return {"seq_state": seq_state, "zero_entry": zero_entry, "stale_degree": stale_degree, "long_spelling": long_spelling, "fn": fn, "type": tn, "model": m, "terms": dict(m), "kw": kw, "poly": p, "kind": kind,
             "true_vars": tv, "full_keys": full, "own_matrix": own, "matrix": mat, "schedule_kind": sch, "user_mapping": mapped, "coef_kind": coef_kind, "numpy_spelled": numpy_spelled,
             "constrained": constrained}
 
